@@ -30,7 +30,7 @@ func init() { register(propC10{}) }
 func (propC10) ID() string { return "C10" }
 
 var c10Models = []string{"alpha", "Alpha", "beta", "alpha@d1", "alpha@d2", "a::b", "a", "b::c", "x*y", "gamma:latest", "delta/Q4", "c"}
-var c10Patterns = []string{"*", "a*", "c*", "b::c*", "b::*", "b::a*", "*::*", "alpha", "*:latest", "x*", "a", "*a", "beta", "b*"}
+var c10Patterns = []string{"*", "a*", "c*", "b::c*", "b::*", "b::a*", "*::*", "alpha", "*:latest", "x*", "a", "*a", "beta", "b*", "*LPH*", "*Lat*", "A*", "*TA", "Gamma:Latest"}
 
 func c10List(r *rng) []string {
 	var out []string
@@ -201,8 +201,11 @@ func (propC10) Exec(p *Plan2, res *Result2) {
 	for i := range ref {
 		ref[i] = map[string]bool{}
 	}
+	// the reference for "passes the endpoint's filter" is written from the documented semantics (case-insensitive
+	// *, *text*, *text, text*, exact; a name passes if it matches some include pattern - or there is none - and
+	// no exclude pattern), not borrowed from the implementation
 	fresh := func(cfg *domain.FilterConfig, name string) bool {
-		return filter.NewGlobFilter().Matches(cfg, name)
+		return c10RefFilter(cfg, name)
 	}
 	shared := filter.NewGlobFilter() // purity probe: same instance across the whole run
 	s := NewSched(p.Seed, p.Choices, p.MaxSteps)
@@ -483,4 +486,45 @@ func c10Stem(s string) string {
 		s = s[:i]
 	}
 	return s
+}
+
+func c10RefGlob(name, pat string) bool {
+	n, p := strings.ToLower(name), strings.ToLower(pat)
+	if !strings.Contains(p, "*") {
+		return n == p
+	}
+	lead, trail := strings.HasPrefix(p, "*"), strings.HasSuffix(p, "*")
+	core := strings.Trim(p, "*")
+	switch {
+	case core == "":
+		return true
+	case lead && trail:
+		return strings.Contains(n, core)
+	case lead:
+		return strings.HasSuffix(n, core)
+	case trail:
+		return strings.HasPrefix(n, core)
+	}
+	return n == p
+}
+
+func c10RefFilter(cfg *domain.FilterConfig, name string) bool {
+	if cfg == nil || (len(cfg.Include) == 0 && len(cfg.Exclude) == 0) {
+		return true
+	}
+	included := len(cfg.Include) == 0
+	for _, p := range cfg.Include {
+		if c10RefGlob(name, p) {
+			included = true
+		}
+	}
+	if !included {
+		return false
+	}
+	for _, p := range cfg.Exclude {
+		if c10RefGlob(name, p) {
+			return false
+		}
+	}
+	return true
 }
